@@ -949,16 +949,66 @@ func c04ImplicitDots(r *an.Run) {
 				calls = append(calls, c)
 			}
 		}
-		good := len(args) == 2 && args[0] == "c.patchStart" && args[1] == "c.patchEnd" && calls[0].Block().Dominates(calls[1].Block())
+		good := len(args) == 2 && args[0] == "c.patchStart" && args[1] == "c.patchEnd" && reachesBlock(calls[0].Block(), calls[1].Block()) && !reachesBlock(calls[1].Block(), calls[0].Block())
 		r.Check(good, short(f)+"|wrapped", f.Pos(), "a statement pattern is wrapped in a leading (patchStart) and a trailing (patchEnd) implicit '...' (got %v)", args)
 		// only for non-empty lists, and the pattern's own statements go in between
 		mid := false
 		for _, c := range an.CallsTo(f, "builtin:append") {
 			if strings.HasSuffix(an.Path(c.Common().Args[1]), ".List") {
-				mid = len(calls) == 2 && calls[0].Block().Dominates(c.Block()) && (c.Block().Dominates(calls[1].Block()))
+				mid = len(calls) == 2 && reachesBlock(calls[0].Block(), c.Block()) && !reachesBlock(c.Block(), calls[0].Block()) && (c.Block().Dominates(calls[1].Block()))
 			}
 		}
 		r.Check(mid, short(f)+"|pattern-in-between", f.Pos(), "the pattern's statements are placed between the two implicit elisions, whole")
+		if len(calls) == 2 {
+			// the trailing elision is unconditional (for a non-empty pattern); the leading one is left out only
+			// when the pattern already begins with an elision at that very position — two elisions at one
+			// position cannot be told apart when the '+' elisions are associated with the '-' ones (F13)
+			var conds []ssa.Value
+			for _, cd := range r.P.AllCtrlDeps(calls[0].Block()) {
+				if iff, ok := cd.Block.Instrs[len(cd.Block.Instrs)-1].(*ssa.If); ok {
+					conds = append(conds, iff.Cond)
+				}
+			}
+			guarded := false
+			extra := ""
+			for _, cnd := range conds {
+				c2, _ := an.StripNot(cnd)
+				if cmp, ok := c2.(*ssa.BinOp); ok {
+					if sub, _, isEmp := emptinessTest(cmp); isEmp && strings.HasSuffix(an.Path(sub), ".List") {
+						continue // the non-empty test
+					}
+				}
+				sl := preciseSlice(cnd)
+				seesStart, seesFirst := false, false
+				for v := range sl {
+					if strings.HasSuffix(an.Path(v), ".patchStart") {
+						seesStart = true
+					}
+					if strings.HasSuffix(an.Path(v), ".List") || strings.HasSuffix(an.Path(v), ".List[]") {
+						seesFirst = true
+					}
+				}
+				if seesStart && seesFirst {
+					guarded = true
+				} else {
+					extra = condText(cnd)
+				}
+			}
+			r.Check(guarded && extra == "", short(f)+"|leading-elision-unless-present", calls[0].Pos(), "the implicit leading '...' at the start position of the patch is added unless the pattern already begins with a '...' at that position (decided from the first statement and patchStart); no other condition drops it%s", ifNonEmpty(extra, " — found "+extra))
+			trailingConds := 0
+			for _, cd := range r.P.AllCtrlDeps(calls[1].Block()) {
+				if iff, ok := cd.Block.Instrs[len(cd.Block.Instrs)-1].(*ssa.If); ok {
+					c2, _ := an.StripNot(iff.Cond)
+					if cmp, ok := c2.(*ssa.BinOp); ok {
+						if sub, _, isEmp := emptinessTest(cmp); isEmp && strings.HasSuffix(an.Path(sub), ".List") {
+							continue
+						}
+					}
+					trailingConds++
+				}
+			}
+			r.Check(trailingConds == 0, short(f)+"|trailing-elision-unconditional", calls[1].Pos(), "the implicit trailing '...' is added to every non-empty statement pattern")
+		}
 		fps = append(fps, fingerprintFiltered(f, func(s string) bool {
 			return !strings.Contains(s, "compile") && !strings.Contains(s, "Matcher") && !strings.Contains(s, "Replacer")
 		}))
